@@ -133,4 +133,17 @@ let u_e2e_panic c =
      | Inr e -> Ok_
      | Inl _ -> Diff "the implementation panicked; the model returned an output")
 
-let () = register [ ("e2e", u_e2e) ]; panic_units := !panic_units @ [ ("e2e_panic", u_e2e_panic) ]
+(* how often the hypothesis of FormatEofProofs.format_ends_with_one_newline (eof_lines_ok: the Eof token only in parentless Eof
+   lines [e] that are nobody's parent, an Eof line present, the Eof token not ignored) holds on the composed run; where it does, the
+   output must end in exactly one configured line ending after the text of the last other token (a theorem; re-checked here) *)
+let u_eofhyp c =
+  match lex_segments (bytes_of_string c.input), c.out with
+  | Some segs, Some out when List.length segs <= max_tokens ->
+    if eof_lines_okb segs then begin
+      let (nl, _, _) = c.rs in
+      let n = String.length out and k = String.length nl in
+      if n >= k && String.sub out (n - k) k = nl then Ok_ else Diff "hypothesis holds but the output does not end in the configured line ending"
+    end else Viol ("eof_hypothesis_false", "eof_lines_ok does not hold on the composed run")
+  | _ -> Skip
+
+let () = register [ ("e2e", u_e2e); ("eofhyp", u_eofhyp) ]; panic_units := !panic_units @ [ ("e2e_panic", u_e2e_panic) ]
